@@ -21,7 +21,7 @@ RULE = ("case = callback table + script over the real toplevel instance (default
         "cancel target state, destroy notifications).")
 ASSUMPTIONS = ["no int overflow in time arithmetic (deadlines within +-2^30 us of the clock)",
                "a callback cancels only watches that are still live (not yet invoked with UNBIND, not cancelled), and not itself while it runs",
-               "malloc does not fail", "tickit_tick is not re-entered from inside a callback; the application holds one reference and may drop it anywhere (script action d): "
+               "malloc does not fail", "a nested tickit_tick from inside a callback and DESTROY handlers that register / cancel watches are covered by the separate executable model coq/LoopNest.v (cases WN: correspondence and witnesses), not by the general theorems; a DESTROY handler acts only on watches of kinds destroyed later; the application holds one reference and may drop it anywhere (script action d): "
                "the instance then dies when the running tickit_tick returns (fixes/C18-tick-holds-reference.patch) and the script ends"]
 TRUSTED = ["model coq/LoopDefs.v hand-written after src/tickit.c (with fixes/C17-*.patch applied); specification coq/LoopSpec.v "
            "(priority queue keyed by (deadline, registration number), snapshot semantics of an iteration)",
